@@ -529,6 +529,100 @@ def Inv (s : BS) : Prop :=
 
 def init : BS := ⟨false, false, false, false, false⟩
 
+/-! ### the gate is moved by EnableReloads / DisableReloads only -/
+
+theorem doReload_gate (f : Faults) (cs : CS) : (doReload f cs).cs.enabled = cs.enabled := by
+  unfold doReload; split <;> rfl
+
+theorem push_gate (f : Faults) (i n : Nat) (cs : CS) : (push f i n cs).cs.enabled = cs.enabled := by
+  induction n generalizing cs with
+  | zero => rfl
+  | succ n ih =>
+    unfold push
+    split
+    · split
+      · rfl
+      · simp only; rw [ih]
+    · rfl
+
+theorem epLoop_gate (plus : Bool) (f : Faults) (rs : List Res) (i : Nat) (cs : CS) :
+    (epLoop plus f rs i cs).cs.enabled = cs.enabled := by
+  induction rs generalizing i cs with
+  | nil => rfl
+  | cons r rs ih =>
+    unfold epLoop
+    simp only
+    rw [ih]
+    split
+    · exact push_gate f i r.ups cs
+    · rfl
+
+theorem always_gate (f : Faults) (rs : List Res) (cs : CS) : (always f rs cs).cs.enabled = cs.enabled := by
+  unfold always; exact doReload_gate f cs
+
+/-- **gate_not_closed_by_operation**: no operation other than DisableReloads leaves the gate closed behind itself — a change made
+after it is never silently held back. -/
+theorem gate_not_closed_by_operation (plus : Bool) (f : Faults) (cs : CS) (op : Op) (he : cs.enabled = true)
+    (hop : op ≠ .disable) : (exec plus f cs op).cs.enabled = true := by
+  cases op with
+  | enable => rfl
+  | disable => exact absurd rfl hop
+  | always rs => simp only [exec]; rw [always_gate]; exact he
+  | single r w => simp only [exec, single]; rw [always_gate]; cases w <;> simp [he]
+  | delete r s =>
+    simp only [exec, delete]
+    split
+    · exact he
+    · rw [always_gate]; exact he
+  | resources rs riu =>
+    simp only [exec, resources]
+    split
+    · rw [always_gate]; exact he
+    · exact he
+  | endpoints rs =>
+    simp only [exec, endpoints]
+    split
+    · simp only; rw [epLoop_gate]; exact he
+    · simp only; rw [doReload_gate, epLoop_gate]; exact he
+  | batchReload flag =>
+    simp only [exec, batchReload]
+    split
+    · simp only; rw [doReload_gate]; exact he
+    · exact he
+
+/-- **gate_opened_only_by_enable_or_weights**: while reloads are held back, the only operations that open the gate are EnableReloads
+and — finding S-C12-a — AddOrUpdateVirtualServer with weight updates. -/
+theorem gate_opened_only_by_enable_or_weights (plus : Bool) (f : Faults) (cs : CS) (op : Op) (he : cs.enabled = false)
+    (ho : (exec plus f cs op).cs.enabled = true) : op = .enable ∨ ∃ r, op = .single r true := by
+  cases op with
+  | enable => exact Or.inl rfl
+  | disable => simp [exec] at ho
+  | always rs => simp only [exec] at ho; rw [always_gate, he] at ho; cases ho
+  | single r w =>
+    cases w with
+    | true => exact Or.inr ⟨r, rfl⟩
+    | false => simp only [exec, single] at ho; rw [always_gate] at ho; simp [he] at ho
+  | delete r s =>
+    simp only [exec, delete] at ho
+    split at ho
+    · rw [he] at ho; cases ho
+    · rw [always_gate, he] at ho; cases ho
+  | resources rs riu =>
+    simp only [exec, resources] at ho
+    split at ho
+    · rw [always_gate, he] at ho; cases ho
+    · rw [he] at ho; cases ho
+  | endpoints rs =>
+    simp only [exec, endpoints] at ho
+    split at ho
+    · simp only at ho; rw [epLoop_gate, he] at ho; cases ho
+    · simp only at ho; rw [doReload_gate, epLoop_gate, he] at ho; cases ho
+  | batchReload flag =>
+    simp only [exec, batchReload] at ho
+    split at ho
+    · simp only at ho; rw [doReload_gate, he] at ho; cases ho
+    · rw [he] at ho; cases ho
+
 theorem inv_init : Inv init := by simp [Inv, init]
 
 def dirty (k : Kind) : Bool := k != Kind.endpoint false
